@@ -762,7 +762,9 @@ def run_variant(c, idx, v):
                 break
         # output directory forms (on the small schemas and a few large ones)
         if not v.big or v.name == "fix44":
-            for form, od, cwd in (("nested", "a/b/p", mod), ("absolute", os.path.join(mod, "abs", "p"), wd), ("nested-dot", "./x/../y/p", mod)):
+            for form, od, cwd in (("nested", "a/b/p", mod), ("absolute", os.path.join(mod, "abs", "p"), wd), ("nested-dot", "./x/../y/p", mod),
+                                  ("mixed-case", "Gen/OutDir_1/p", mod), ("space", "with space/p", mod), ("percent", "pct%d%s/p", mod),
+                                  ("unicode", "caf\u00e9/\u0414/p", mod)):
                 rc3, out3 = gen(od, cwd)
                 tgt = od if os.path.isabs(od) else os.path.join(cwd, od)
                 if rc3 != 0 and verdict_varies(True):
@@ -795,6 +797,8 @@ def run_variant(c, idx, v):
             shutil.rmtree(os.path.join(mod, "a"), ignore_errors=True)
             shutil.rmtree(os.path.join(mod, "abs"), ignore_errors=True)
             shutil.rmtree(os.path.join(mod, "y"), ignore_errors=True)
+            for d in ("Gen", "with space", "pct%d%s", "caf\u00e9"):
+                shutil.rmtree(os.path.join(mod, d), ignore_errors=True)
         shutil.rmtree(os.path.join(mod, "p2"), ignore_errors=True)
         # one Generator object, two Execute calls (library API): both succeed and agree with the command line run
         if (not v.big or v.name == "fix44") and not any(sg.startswith("nondeterministic") for sg, _ in viol):
